@@ -182,6 +182,16 @@ if "scatter" in req:
 
 
 # ---------------------------------------------------------------- full resamplers
+def layout_fn(name):
+    """the same logical 2-D array in another memory layout"""
+    def strided(a):
+        big = np.full((a.shape[0], 2 * a.shape[1]), 7, dtype=a.dtype)
+        big[:, ::2] = a
+        return big[:, ::2]
+    return {"C": np.ascontiguousarray, "F": np.asfortranarray, "T": lambda a: np.ascontiguousarray(a.T).T, "strided": strided,
+            "neg": lambda a: np.ascontiguousarray(a[::-1, ::-1])[::-1, ::-1]}[name]
+
+
 def build_geo(spec, cover=None):
     from pyresample.geometry import AreaDefinition, SwathDefinition
     from pyproj import Proj
@@ -204,7 +214,8 @@ def build_geo(spec, cover=None):
         d = spec["d"]
         lons = spec["lon0"] + d * ii * (1 + spec["f1"] * jj) + spec["g1"] * d * jj
         lats = spec["lat0"] - d * jj * (1 + spec["f2"] * ii) + spec["g2"] * d * ii
-        return SwathDefinition(lons, lats)
+        lay = layout_fn(spec.get("layout", "C"))
+        return SwathDefinition(lay(lons), lay(lats))
     # swath: a lattice in the coordinates of a base projection, mapped by an affine transform, jittered, inverse-projected
     h, w = spec["shape"]
     p = Proj(spec["proj"])
@@ -230,7 +241,8 @@ def build_geo(spec, cover=None):
     lats = np.ascontiguousarray(lats)
     for (i, j) in spec.get("invalid", []):
         lons[i % lons.shape[0], j % lons.shape[1]] = 1e30
-    return SwathDefinition(lons, lats)
+    lay = layout_fn(spec.get("layout", "C"))
+    return SwathDefinition(lay(lons), lay(lats))
 
 
 def fields(spec, sx, sy):
@@ -258,6 +270,8 @@ if "resample" in req:
         try:
             tgt = build_geo(c["target"])
             src = build_geo(c["source"], tgt)
+            layout = c["source"].get("layout", "C")
+            lay = layout_fn(layout)           # the data arrays are passed in the same memory layout as the source lon/lat
             kw = dict(neighbours=c["neighbours"], reduce_data=bool(c.get("reduce_data", False)))
             lons, lats = src.get_lonlats()
             lons = np.asarray(lons, dtype=np.float64)
@@ -290,12 +304,12 @@ if "resample" in req:
                 try:
                     r["np"] = {}
                     for name, d in fl.items():
-                        r["np"][name] = jl(rn.get_sample_from_bil_info(d.copy(), fill_value=np.nan))
+                        r["np"][name] = jl(rn.get_sample_from_bil_info(lay(d.copy()), fill_value=np.nan))
                     stack = np.stack([fl["const"], fl["affine"], fl["random"]])     # (3, y, x): "bands first"
                     r["np"]["stack"] = jl(np.moveaxis(np.asarray(
                         rn.get_sample_from_bil_info(stack.copy(), fill_value=np.nan)), -1, 0))
                     for dt, v in ints_.items():
-                        r["np"]["int:" + dt] = jl(np.asarray(rn.get_sample_from_bil_info(v.copy(), fill_value=0), dtype=np.float64))
+                        r["np"]["int:" + dt] = jl(np.asarray(rn.get_sample_from_bil_info(lay(v.copy()), fill_value=0), dtype=np.float64))
                         r["np"]["intref:" + dt] = jl(rn.get_sample_from_bil_info(v.astype(np.float64), fill_value=0))
                 except Exception as e:
                     r.pop("np", None)
@@ -313,6 +327,13 @@ if "resample" in req:
                         r["nb_i"] = np.asarray(r2._index_array).astype(int).ravel().tolist()
                         r["valid_out"] = np.flatnonzero(r2._valid_output_indices).astype(int).tolist()
                         r["valid_data_random"] = jl(fl["random"].ravel()[np.asarray(r2._valid_input_index)])
+                if "np" in r and layout != "C":
+                    src_c = build_geo(dict(c["source"], layout="C"), tgt)
+                    rc = NumpyBilinearResampler(src_c, tgt, c["radius"], **kw)
+                    rc.get_bil_info()
+                    r["np_c"] = {"t": jl(rc.bilinear_t), "s": jl(rc.bilinear_s)}
+                    for name, d in fl.items():
+                        r["np_c"][name] = jl(rc.get_sample_from_bil_info(np.ascontiguousarray(d.copy()), fill_value=np.nan))
                 if "np" in r:
                     # histories on one resampler object: a repeated call gives the same result, the inputs are not modified
                     keep = fl["const"].copy()
@@ -326,7 +347,7 @@ if "resample" in req:
                         from pyresample.bilinear._numpy_resampler import get_bil_info, get_sample_from_bil_info, resample_bilinear
                         try:
                             lg = {}
-                            lg["resample_bilinear"] = jl(resample_bilinear(fl["random"].copy(), src, tgt, radius=c["radius"],
+                            lg["resample_bilinear"] = jl(resample_bilinear(lay(fl["random"].copy()), src, tgt, radius=c["radius"],
                                                                            neighbours=c["neighbours"], fill_value=np.nan,
                                                                            reduce_data=bool(c.get("reduce_data", False))))
                             t_, s_, iidx, idxarr = get_bil_info(src, tgt, radius=c["radius"], neighbours=c["neighbours"],
@@ -341,7 +362,7 @@ if "resample" in req:
                 # one-call API as well
                 if "np" in r:
                     r["np"]["resample_api"] = jl(NumpyBilinearResampler(src, tgt, c["radius"], **kw).resample(
-                        fl["random"].copy(), fill_value=np.nan))
+                        lay(fl["random"].copy()), fill_value=np.nan))
             if c.get("want_xarray", True):
                 import dask.array as da
                 import xarray as xr
@@ -353,7 +374,7 @@ if "resample" in req:
                     ch2 = tuple(chunks) if isinstance(chunks, list) else chunks
                     for name, d in fl.items():
                         rx = XArrayBilinearResampler(src, tgt, c["radius"], **kw)
-                        arr = xr.DataArray(da.from_array(d.copy(), chunks=ch2), dims=("y", "x"))
+                        arr = xr.DataArray(da.from_array(lay(d.copy()), chunks=ch2), dims=("y", "x"))
                         r["xr"][key][name] = jl(rx.resample(arr, fill_value=np.nan).values)
                     stack = np.stack([fl["const"], fl["affine"], fl["random"]])
                     ch3 = ((1,) + ch2) if isinstance(ch2, tuple) else ch2
